@@ -377,3 +377,296 @@ def mon_reset(case, obs):
         if ff.get('rom') != e:
             return 'final ROM digest %s is not the selected image (%s)' % (ff.get('rom'), e)
     return None
+
+
+# --------------------------------------------------------------------------- DUART monitors
+
+def parse_snap(tok):
+    """D:... -> dict with both ports and the DUART-level registers"""
+    v = [int(x) for x in tok[2:].split(',')]
+    i = 0
+    ports = []
+    for _ in range(2):
+        p = {}
+        p['mode0'], p['mode1'], p['mode_ptr'], p['stat'], p['conf'] = v[i:i + 5]
+        i += 5
+        n = v[i]; i += 1
+        p['fifo'] = v[i:i + n]; i += n
+        p['rx_shift'], p['tx_hold'], p['tx_shift'] = v[i:i + 3]; i += 3
+        n = v[i]; i += 1
+        p['rxq'] = v[i:i + n]; i += n
+        n = v[i]; i += 1
+        p['txq'] = v[i:i + n]; i += n
+        p['char_delay'], p['next_tx'], p['next_rx'] = v[i:i + 3]; i += 3
+        ports.append(p)
+    d = dict(zip(['acr', 'ipcr', 'inprt', 'outprt', 'isr', 'imr', 'ivec', 'next_vblank'], v[i:i + 8]))
+    d['ports'] = ports
+    return d
+
+
+def final_snap(fin):
+    if not fin:
+        return None
+    for t in fin.split():
+        if t.startswith('D:'):
+            return parse_snap(t)
+    return None
+
+
+def duart_events(case, obs):
+    toks = case.split()[1:]
+    out, fin = split_obs(obs)
+    return toks, out, fin
+
+
+def is_subseq(a, b):
+    it = iter(b)
+    return all(any(x == y for y in it) for x in a)
+
+
+def chan_of(addr):
+    off = addr - 0x200000
+    if 0 <= off < 0x20:
+        return 0, off
+    if 0x20 <= off < 0x40:
+        return 1, off - 0x20
+    return None, off
+
+
+def mon_rx_path(case, obs):
+    """C08: bytes read while RxRDY form an in-order subsequence of the bytes queued; exact conservation when no
+    overrun was flagged, no receiver reset was issued and no ungated read consumed a byte."""
+    toks, out, fin = duart_events(case, obs)
+    enq = [[], []]
+    deliv = [[], []]
+    lossy = [False, False]        # reset / ungated read / loop-back seen
+    loopback = [False, False]
+    mode_ptr = [0, 0]
+    last_status = [None, None]
+    for i, t in enumerate(toks):
+        if i >= len(out):
+            break
+        f = t.split(':')
+        k = f[0]
+        o = out[i]
+        if o == 'p':
+            return 'op %d (%s) panicked' % (i, t)
+        if k == 'qa':
+            enq[0].append(int(f[1], 16) & 0xff)
+        elif k == 'qb':
+            enq[1].append(int(f[1], 16) & 0xff)
+        elif k in ('rb', 'rh', 'rw', 'wb', 'wh', 'ww'):
+            a = int(f[1], 16) + {'b': 0, 'h': 2, 'w': 3}[k[1]]
+            ch, off = chan_of(a)
+            if ch is None or not (0x200000 <= int(f[1], 16) < 0x200040):
+                continue
+            if k[0] == 'r':
+                if off == 0x07 and o.startswith('v'):
+                    last_status[ch] = int(o[1:], 16)
+                    continue
+                if off == 0x0f and o.startswith('v'):
+                    if last_status[ch] is not None and last_status[ch] & 1:
+                        deliv[ch].append(int(o[1:], 16))
+                    else:
+                        lossy[ch] = True
+                if off == 0x03:
+                    mode_ptr[ch] ^= 1
+            else:
+                v = int(f[2], 16) & 0xff
+                if off == 0x03:
+                    if mode_ptr[ch] == 1 and (v & 0xc0) == 0x80:
+                        loopback[ch] = True
+                    if mode_ptr[ch] == 1 and (v & 0xc0) != 0x80 and loopback[ch]:
+                        pass
+                    mode_ptr[ch] ^= 1
+                if off == 0x0b:
+                    x = (v >> 4) & 7
+                    if x == 1:
+                        mode_ptr[ch] = 0
+                    if x == 2:
+                        lossy[ch] = True
+            last_status[ch] = None if not (k[0] == 'r' and off == 0x07) else last_status[ch]
+        if k not in ('rb',):
+            pass
+    snap = final_snap(fin)
+    for ch in (0, 1):
+        if loopback[ch]:
+            continue
+        if not is_subseq(deliv[ch], enq[ch]):
+            return 'channel %s: bytes read while RxRDY %s are not an in-order subsequence of the bytes queued %s' % (
+                'AB'[ch], ['%02x' % x for x in deliv[ch]], ['%02x' % x for x in enq[ch]])
+        if snap and not lossy[ch]:
+            p = snap['ports'][ch]
+            pipe = deliv[ch] + p['fifo'] + ([p['rx_shift']] if p['rx_shift'] >= 0 else []) + p['rxq']
+            if pipe != enq[ch] and not (p['stat'] & 0x10):
+                return 'channel %s: delivered+buffered %s differs from queued %s and no overrun is flagged' % (
+                    'AB'[ch], ['%02x' % x for x in pipe], ['%02x' % x for x in enq[ch]])
+    return None
+
+
+def mon_tx_path(case, obs):
+    """C09: bytes written while TxRDY reach the host exactly once, in order (no reset-transmitter, no loop-back)."""
+    toks, out, fin = duart_events(case, obs)
+    written = [[], []]
+    polled = [[], []]
+    skip = [False, False]
+    mode_ptr = [0, 0]
+    last_status = [None, None]
+    for i, t in enumerate(toks):
+        if i >= len(out):
+            break
+        f = t.split(':')
+        k = f[0]
+        o = out[i]
+        if o == 'p':
+            return 'op %d (%s) panicked' % (i, t)
+        if k in ('pa', 'pb'):
+            ch = 0 if k == 'pa' else 1
+            if o != 'c-':
+                polled[ch].append(int(o[1:], 16))
+            continue
+        if k in ('rb', 'rh', 'rw', 'wb', 'wh', 'ww') and 0x200000 <= int(f[1], 16) < 0x200040:
+            a = int(f[1], 16) + {'b': 0, 'h': 2, 'w': 3}[k[1]]
+            ch, off = chan_of(a)
+            if ch is None:
+                continue
+            if k[0] == 'r':
+                if off == 0x07 and o.startswith('v'):
+                    last_status[ch] = int(o[1:], 16)
+                    continue
+                if off == 0x03:
+                    mode_ptr[ch] ^= 1
+            else:
+                v = int(f[2], 16) & 0xff
+                if off == 0x0f:
+                    if last_status[ch] is not None and last_status[ch] & 4:
+                        written[ch].append(v)
+                    else:
+                        skip[ch] = True     # ungated write: may overwrite, outside the property
+                if off == 0x03:
+                    if mode_ptr[ch] == 1 and (v & 0xc0) == 0x80:
+                        skip[ch] = True
+                    mode_ptr[ch] ^= 1
+                if off == 0x0b:
+                    x = (v >> 4) & 7
+                    if x == 1:
+                        mode_ptr[ch] = 0
+                    if x == 3:
+                        skip[ch] = True
+            last_status[ch] = None
+    snap = final_snap(fin)
+    for ch in (0, 1):
+        if skip[ch] or not snap:
+            continue
+        p = snap['ports'][ch]
+        pipe = polled[ch] + p['txq'] + ([p['tx_shift']] if p['tx_shift'] >= 0 else []) + ([p['tx_hold']] if p['tx_hold'] >= 0 else [])
+        if pipe != written[ch]:
+            return 'channel %s: polled+pending %s differs from the bytes written while TxRDY %s' % (
+                'AB'[ch], ['%02x' % x for x in pipe], ['%02x' % x for x in written[ch]])
+    return None
+
+
+def mon_status_truth(case, obs):
+    """C14 (adjacent-op patterns): status shows ready -> the very next interrupt poll names the source;
+    after a draining read / a disable command, the next poll and ISR read show the source withdrawn;
+    in every snapshot: RxRDY implies a non-empty FIFO and an enabled receiver, TxRDY implies an empty holding register."""
+    toks, out, fin = duart_events(case, obs)
+    n = min(len(toks), len(out))
+    for i in range(n):
+        if out[i] == 'p':
+            return 'op %d (%s) panicked' % (i, toks[i])
+        t = toks[i]
+        if out[i].startswith('D:'):
+            s = parse_snap(out[i])
+            for ch, p in enumerate(s['ports']):
+                if p['stat'] & 1 and (not p['fifo'] or not p['conf'] & 2):
+                    return 'op %d: channel %s reports RxRDY with fifo=%s conf=%x' % (i, 'AB'[ch], p['fifo'], p['conf'])
+                if p['stat'] & 4 and p['tx_hold'] >= 0:
+                    return 'op %d: channel %s reports TxRDY while the holding register holds %02x' % (i, 'AB'[ch], p['tx_hold'])
+        if i + 1 < n and toks[i + 1] == 'gi' and out[i].startswith('v'):
+            if t == 'rb:200007':
+                st = int(out[i][1:], 16)
+                iv = 0 if out[i + 1] == 'i-' else int(out[i + 1][1:], 16)
+                if st & 1 and not iv & 0x20:
+                    return 'op %d: receiver A ready (status %02x) but the next interrupt poll gave %s' % (i, st, out[i + 1])
+                if st & 4 and not iv & 0x10:
+                    return 'op %d: transmitter A ready (status %02x) but the next interrupt poll gave %s' % (i, st, out[i + 1])
+            if t == 'rb:200027':
+                st = int(out[i][1:], 16)
+                iv = 0 if out[i + 1] == 'i-' else int(out[i + 1][1:], 16)
+                if st & 1 and not iv & 0x04:
+                    return 'op %d: receiver B ready (status %02x) but the next interrupt poll gave %s' % (i, st, out[i + 1])
+        # drain pattern: RHR read ; status read (not ready) ; gi
+        if i + 2 < n and t in ('rb:20000f', 'rb:20002f') and toks[i + 2] == 'gi':
+            ch = 0 if t == 'rb:20000f' else 1
+            if toks[i + 1] == 'rb:%x' % (0x200007 + 0x20 * ch) and out[i + 1].startswith('v'):
+                st = int(out[i + 1][1:], 16)
+                iv = 0 if out[i + 2] == 'i-' else int(out[i + 2][1:], 16)
+                bit = 0x20 if ch == 0 else 0x04
+                if not st & 1 and iv & bit:
+                    return 'op %d: receiver %s drained (status %02x) but its request is still presented (%s)' % (i, 'AB'[ch], st, out[i + 2])
+    snap = final_snap(fin)
+    if snap:
+        for ch, p in enumerate(snap['ports']):
+            if p['stat'] & 1 and (not p['fifo'] or not p['conf'] & 2):
+                return 'final state: channel %s reports RxRDY with fifo=%s conf=%x' % ('AB'[ch], p['fifo'], p['conf'])
+            if p['stat'] & 4 and p['tx_hold'] >= 0:
+                return 'final state: channel %s reports TxRDY with the holding register occupied' % 'AB'[ch]
+    return None
+
+
+DS_RATES = ([50, 110, 134.5, 200, 300, 600, 1200, 1050, 2400, 4800, 7200, 9600, 38400],
+            [75, 110, 134.5, 150, 300, 600, 1200, 2000, 2400, 4800, 1800, 9600, 19200])
+
+
+def mon_pacing(case, obs):
+    """C17: from the snapshots taken after each service call: successive transfers on a channel are at least one
+    character time apart; the character time programmed by a CSR write is 8..12 bit times of the data-sheet rate;
+    the vertical-blank deadline advances by 1/60 s and only after it has passed."""
+    toks, out, fin = duart_events(case, obs)
+    n = min(len(toks), len(out))
+    now = 0
+    acr = 0
+    last_snap = None
+    last_rx = [None, None]
+    last_txdone = [None, None]
+    for i in range(n):
+        t = toks[i]
+        f = t.split(':')
+        if out[i] == 'p':
+            return 'op %d (%s) panicked' % (i, t)
+        if f[0] == 't':
+            now = int(f[1], 16)
+        elif f[0] == 'wb' and f[1] == '200013':
+            acr = int(f[2], 16) & 0xff
+        elif f[0] == 'wb' and f[1] in ('200007', '200027') and i + 1 <= n:
+            # find the next snapshot to read the programmed delay
+            code = (int(f[2], 16) >> 4) & 0xf
+            for j in range(i + 1, n):
+                if out[j].startswith('D:'):
+                    ch = 0 if f[1] == '200007' else 1
+                    dly = parse_snap(out[j])['ports'][ch]['char_delay']
+                    if code <= 12:
+                        rate = DS_RATES[1 if acr & 0x80 else 0][code]
+                        if not (8e9 / rate <= dly + 1 and dly <= 12e9 / rate):
+                            return 'op %d: clock-select %d (set %d) gives a character time of %d ns: outside 8..12 bit times at %s baud' % (
+                                i, code, 2 if acr & 0x80 else 1, dly, rate)
+                    break
+                if toks[j].split(':')[0] == 'wb' and toks[j].split(':')[1] in (f[1], '200013'):
+                    break
+        elif out[i].startswith('D:'):
+            s = parse_snap(out[i])
+            if last_snap is not None:
+                for ch in (0, 1):
+                    p0, p1 = last_snap['ports'][ch], s['ports'][ch]
+                    if len(p1['rxq']) < len(p0['rxq']):
+                        if last_rx[ch] is not None and now - last_rx[ch][0] < last_rx[ch][1]:
+                            return 'op %d: channel %s received two characters %d ns apart, character time %d ns' % (
+                                i, 'AB'[ch], now - last_rx[ch][0], last_rx[ch][1])
+                        last_rx[ch] = (now, p1['char_delay'])
+                if s['next_vblank'] != last_snap['next_vblank']:
+                    if not (now > last_snap['next_vblank'] and s['next_vblank'] == now + 16666666):
+                        return 'op %d: vertical-blank deadline moved from %d to %d at time %d' % (
+                            i, last_snap['next_vblank'], s['next_vblank'], now)
+            last_snap = s
+    return None
